@@ -429,3 +429,67 @@ func (ev *StreamEv) clientEventJSON(proto int) string {
 	}
 	return ev.Data
 }
+
+// everReachable: target is reachable through (non-soft) references from one of
+// the roots in the union of all states the services ever announced or hold.
+func (w *World) everReachable(roots []string, target string) bool {
+	refs := func(rid string) []string {
+		_, v := w.lookup(rid)
+		if v == nil {
+			return nil
+		}
+		var out []string
+		add := func(st *State) {
+			if st == nil {
+				return
+			}
+			for _, x := range st.Model {
+				if x.T == 'r' {
+					out = append(out, x.RID)
+				}
+			}
+			for _, x := range st.Coll {
+				if x.T == 'r' {
+					out = append(out, x.RID)
+				}
+			}
+		}
+		add(v.Actual)
+		add(v.Announced)
+		for _, e := range v.Stream {
+			add(e.After)
+			if e.Val.T == 'r' {
+				out = append(out, e.Val.RID)
+			}
+			for _, x := range e.Changed {
+				if x != nil && x.T == 'r' {
+					out = append(out, x.RID)
+				}
+			}
+		}
+		return out
+	}
+	seen := map[string]bool{}
+	var visit func(rid string) bool
+	visit = func(rid string) bool {
+		if rid == target {
+			return true
+		}
+		if seen[rid] {
+			return false
+		}
+		seen[rid] = true
+		for _, x := range refs(rid) {
+			if visit(x) {
+				return true
+			}
+		}
+		return false
+	}
+	for _, r := range roots {
+		if r != target && visit(r) {
+			return true
+		}
+	}
+	return false
+}
